@@ -14,6 +14,7 @@ import collections
 from .. import core
 from .. import structworld as W
 from .. import struct_props as S
+from ..mechworld import MechCorr
 from ..impl import mx, close_all, quiet
 
 CFG = {
@@ -163,6 +164,7 @@ def run_history(ops, out, stats, check_values=True, rng=None, n_ops=0):
     live = W.Live("M")
     nontrivial = False
     results = []
+    mech = MechCorr()
     focus = (2 if rng.random() < 0.4 else None) if rng is not None else None
     if rng is not None and not ops:
         ops += [["set_mref", "u", 11], ["set_mref", "r", 12]] + S.motif(rng)
@@ -179,8 +181,10 @@ def run_history(ops, out, stats, check_values=True, rng=None, n_ops=0):
                 S.eval_everything(live)
                 results.append("ok")
                 continue
+            mech.before(live, k - 1, op)
             r = live.apply(op)
             results.append(r)
+            mech.after(live, k - 1, op, r)
             stats["op:" + op[0]] += 1
             if r.startswith("err"):
                 stats["rejected:" + op[0]] += 1
@@ -192,6 +196,8 @@ def run_history(ops, out, stats, check_values=True, rng=None, n_ops=0):
                 break
         if check_values and not out.failures:
             values_vs_rebuilt(live, ops, len(ops) - 1, out, stats)
+        # the incremental mechanism model (Struct/Mech.lean) against what the implementation did, edit by edit
+        mech.finish(out, lambda kk: S.hist_json(ops, kk), stats)
     finally:
         live.close()
         close_all()
@@ -217,9 +223,15 @@ def run(ctx, out):
     class _H(S.Hooks):
         def start(self, live, stats):
             self.results = []
+            self.mech = MechCorr()
+
+        def before(self, live, ops, k, op, stats):
+            self.mech.before(live, k, op)
 
         def after(self, live, ops, k, op, result, out2, stats):
             self.results.append(result)
+            if op[0] != "evalall":
+                self.mech.after(live, k, op, result)
             if op[0] in ("eval", "evalall", "set_value", "clear", "clear_all", "clear_at"):
                 return
             check_state(live, ops, k, out2, stats, self.results)
@@ -227,6 +239,7 @@ def run(ctx, out):
         def end(self, live, ops, out2, stats):
             if not out2.failures:
                 values_vs_rebuilt(live, ops, len(ops) - 1, out2, stats)
+            self.mech.finish(out2, lambda kk: S.hist_json(ops, kk), stats)
     S.enumerate_edits(ctx, out, "C03", _H, CFG, stats)
     out.coverage.update({"evaluations": len(cases) + stats["enumerated_scenarios"], "programs": len(seen),
                          "distinct_nontrivial": nontrivial,
